@@ -396,18 +396,41 @@ Qed.
 Lemma jsize_le_toks v : (jsize v <= length (toks v))%nat.
 Proof.
   induction v using json_ind'; cbn [jsize toks length]; try lia.
-  - rewrite app_length. cbn [length]. pose proof (length_tsep_ge (map toks vs)) as HL.
-    rewrite map_map in HL.
+  - rewrite app_length. cbn [length].
     assert (list_sum (map jsize vs) <= list_sum (map (fun x => length (toks x)) vs))%nat.
-    { induction H; cbn [map]; rewrite ?list_sum_cons; [lia|]. lia. }
+    { induction H; cbn [map]; rewrite ?list_sum_cons; [lia|]. cbv beta in *. lia. }
+    pose proof (length_tsep_ge (map toks vs)) as HL. rewrite map_map in HL.
     lia.
   - rewrite app_length. cbn [length].
-    pose proof (length_tsep_ge (map (fun kv : list N * json => TStr (fst kv) :: TColon :: toks (snd kv)) ms)) as HL.
-    rewrite map_map in HL.
     assert (list_sum (map (fun kv : list N * json => jsize (snd kv)) ms)
             <= list_sum (map (fun x : list N * json => length (TStr (fst x) :: TColon :: toks (snd x))) ms))%nat.
-    { induction H; cbn [map]; rewrite ?list_sum_cons; [lia|]. cbn [length] in *. lia. }
+    { induction H; cbn [map]; rewrite ?list_sum_cons; [lia|]. cbv beta in *. cbn [length] in *. lia. }
+    pose proof (length_tsep_ge (map (fun kv : list N * json => TStr (fst kv) :: TColon :: toks (snd kv)) ms)) as HL.
+    rewrite map_map in HL.
     lia.
+Qed.
+
+(* ---------------------------------------------------------------- separated items *)
+
+(* The bytes of a separated list lex to the items' tokens joined by commas,
+   provided the separator lexes to a comma and every item is followed
+   correctly whatever comes next. *)
+Lemma lexes_sep_by {A} (sep : list N) (pf : A -> list N) (tf : A -> list token) (xs : list A) tail tts :
+  (forall l, num_end (sep ++ l)) ->
+  (forall l ts, lexes l ts -> lexes (sep ++ l) (TComma :: ts)) ->
+  (forall x, In x xs -> forall rest ts, num_end rest -> lexes rest ts -> lexes (pf x ++ rest) (tf x ++ ts)) ->
+  num_end tail -> lexes tail tts ->
+  lexes (sep_by sep (map pf xs) ++ tail) (tsep (map tf xs) ++ tts).
+Proof.
+  intros Hse Hsl. induction xs as [|x xs IH]; intros Hx He Hl; [exact Hl|].
+  destruct xs as [|y xs'].
+  - cbn [map sep_by tsep]. apply Hx; [left; reflexivity | exact He | exact Hl].
+  - change (sep_by sep (map pf (x :: y :: xs'))) with (pf x ++ sep ++ sep_by sep (map pf (y :: xs'))).
+    change (tsep (map tf (x :: y :: xs'))) with (tf x ++ TComma :: tsep (map tf (y :: xs'))).
+    rewrite <- !app_assoc. cbn [app].
+    apply Hx; [left; reflexivity | apply Hse |].
+    apply Hsl. apply IH; [|exact He | exact Hl].
+    intros z Hz. apply Hx. right. exact Hz.
 Qed.
 
 (* A byte string that lexes to the tokens of [v] is one JSON document that
